@@ -10,7 +10,7 @@ package cmputil
 // therefore hide unexported bookkeeping fields and the two reference-carrying
 // fields (Ref, AnyOf) — nothing else: not Pattern, not Default, not any bound.
 //@ func Opts
-//@   props C06 C09 C05 C07 C08 C10 C02 C20 C04
+//@   props C06 C09 C05 C07 C08 C10 C02 C20 C04 C03 C11 C13 C16 C15
 //@   shape t = anyvals(1) | anyvals(2)
 //@   assigns nothing
-//@   ensures [C06,C09,C05,C07,C08,C10,C02,C20,C04] ignores-only-ref-fields: cmp_options_only(result, "Ref", "AnyOf")
+//@   ensures [C06,C09,C05,C07,C08,C10,C02,C20,C04,C03,C11,C13,C16,C15] ignores-only-ref-fields: cmp_options_only(result, "Ref", "AnyOf")
